@@ -6,3 +6,5 @@ import Gomjml.Props.C05
 #print axioms Gomjml.Props.C05.C05_font_lookup
 #print axioms Gomjml.Props.C05.C05_nondeterminism_census
 #print axioms Gomjml.Props.C05.C05_random_id_callers
+#print axioms Gomjml.Props.C05.C05_font_imports
+#print axioms Gomjml.Props.C05.C05_normalize_color
